@@ -4,7 +4,7 @@ from .. import typegen as TG
 
 ID = "C06"
 LEAN_MODULE = "Ucfg.Props.C06"
-LEVEL_TEXT = 'Round-trip theorems per primitive kind (value -> setting -> same value); the lift to whole structs is PARTIAL and decided by the roundtrip correspondence over generated struct types; known finding D24.'
+LEVEL_TEXT = 'Round-trip theorems per primitive kind (value -> setting -> same value) and the lift to whole structs of primitive fields (flat_struct_roundtrip: NewFrom(struct) followed by Unpack into the zero value returns exactly the struct, for any number of exported untagged fields with distinct simple names, any options without per-field policies: normalisation keeps a sorted dictionary, the merge into the empty config keeps every entry, the field loop finds and converts each); the lift through tags, pointers, containers and nested structs is PARTIAL and decided by the roundtrip correspondence over generated struct types; known finding D24.'
 CORRESPONDENCE = "Normalize.normStructInto + Unpack.unpack ~ ucfg.NewFrom(v) then (*Config).Unpack(&zero)"
 RULE = ("struct types from the type generator restricted to the supported kinds (no interface{}, no arrays as map values) with tags "
         "(rename, inline struct, ignore, embedded structs, dotted tags reaching into a sibling struct's subtree under PathSep) x values of those types incl. zero values, extreme numbers (MinInt64, MaxUint64, +-Inf, NaN, "
